@@ -129,6 +129,18 @@ class Program:
             st = T.type_name_hint(info['self_ty'])[0]
             tr = T.type_name_hint(info['trait'])[0] if info['trait'] else None
             c = [b for (t, b) in self.by_method.get((st, meth), []) if tr is None or t == tr]
+            # qualified self types (`gherkin::Scenario` vs `event::Scenario<W>`): the body's signature must mention the same path
+            qual = re.sub(r'<.*$', '', info['self_ty'].strip().lstrip('&').replace('mut ', '').strip())
+            if '::' in qual and c:
+                # only reject a candidate whose signature names a DIFFERENT module for the same type name
+                last = qual.split('::')[-1]
+                def other_module(b):
+                    for _, t in list(b.params) + [(0, b.ret_type or '')]:
+                        for m in re.finditer(r'((?:\w+::)+)%s\b' % re.escape(last), t):
+                            if not qual.endswith(m.group(0)) and not m.group(0).endswith(qual):
+                                return True
+                    return False
+                c = [b for b in c if not other_module(b)]
             if len(c) == 1:
                 return c[0]
             if len(c) > 1:
@@ -189,6 +201,9 @@ class Exec:
         self.max_paths = max_paths
         self.solver = z3.Solver()
         self.solver.set('timeout', timeout_ms)
+        self.timeout_ms = timeout_ms
+        self.fresh_solver = None
+        self.last_solver = self.solver
         self.stats = Stats()
         self.forced = []
         self.decisions = []
@@ -205,7 +220,17 @@ class Exec:
     def check(self, *extra):
         t0 = time.time()
         self.stats.queries += 1
-        r = self.solver.check(*extra)
+        if self.fresh_solver:
+            # non-incremental: full preprocessing + bit-blasting, much faster on clock arithmetic
+            s = z3.SolverFor('QF_BV') if self.fresh_solver == 'QF_BV' else z3.Solver()
+            s.set('timeout', self.timeout_ms)
+            s.add(*self.pc)
+            s.add(*extra)
+            r = s.check()
+            self.last_solver = s
+        else:
+            r = self.solver.check(*extra)
+            self.last_solver = self.solver
         self.stats.solver_s += time.time() - t0
         if r == z3.unknown:
             raise Inconclusive('solver unknown: %s' % self.solver.reason_unknown())
